@@ -636,6 +636,23 @@ def run(ck):
             len(cur) == 1 and u(cur[0].value) == 'self.identifiers[prefix, id_]'
     ck.ob('ALIAS-copy', mp.loc(ras), ok, 'the attributes of a mapping atom are a fresh copy of its identifier\'s attributes (the explicit identifier, else the last one used) plus its own '
           'atom name; nothing written for one atom can reach the next', key='ALIAS-copy|map-atom-attributes')
+    # ------------------------------------------------------------- .mapping [ from blocks ]: the mapping is named after the residue / modification name the block line gives
+    blk = ck.need(method(mapd, '_blocks'), 'MappingDirector._blocks vanished')
+    ck.analysed(mp, blk)
+    lp = [l for l in blk.body if isinstance(l, ast.For) and '_parse_blocks' in u(l.iter)]
+    ok = len(lp) == 1
+    if ok:
+        body = lp[0].body
+        names = stmts_with_env(blk, lambda s_: isinstance(s_, ast.Expr) and call_attr(s_.value) == 'add_name', stmts=body)
+        dels = [s_ for s_ in ast.walk(lp[0]) if (isinstance(s_, ast.Delete) and "attrs['resname']" in u(s_)) or
+                (isinstance(s_, ast.Expr) and isinstance(s_.value, ast.Call) and call_attr(s_.value) == 'pop' and u(s_.value.func.value) == 'attrs')]
+        store = [s_ for s_ in body if isinstance(s_, ast.Assign) and u(s_.targets[0]) == 'self.identifiers[direction, identifier]']
+        ok = len(names) == 1 and len(dels) == 1 and len(store) == 1 and names[0][0].lineno < dels[0].lineno < store[0].lineno and \
+            flow.equivalent(names[0][1], ('atom', ('Eq', "'from'", 'direction')))[0] | flow.equivalent(names[0][1], ('atom', ('Eq', 'direction', "'from'")))[0]
+        nm = sorted(u(v) for v in assignments_to(blk, 'name'))
+        ok = ok and nm == sorted(["attrs.get('resname')", 'identifier'])
+    ck.ob('PROV-map-names', mp.loc(blk), ok, 'a [ from blocks ] entry names the mapping after its `resname` attribute when it has one (else after the identifier), and only afterwards is the '
+          'resname dropped from a modification\'s identifier attributes; the attributes are then stored for the atoms of that identifier', key='PROV-map-names|from-blocks')
     prefix_order_table(ck, ff)
     shared.truthy_zero(ck, [FF, ITP, PU, MAP, 'vermouth/map_input.py'])
     ck.assume('token-level grammar, macro substitution results and .map weight arithmetic are not decided')
